@@ -54,3 +54,6 @@ func VerifBurndownState(ba *BurndownAnalysis) (files map[string][][2]int, global
 	}
 	return files, ba.globalHistory, people, ba.matrix
 }
+
+// VerifAuthorSelf exports the authorSelf constant.
+func VerifAuthorSelf() int { return authorSelf }
